@@ -3,13 +3,13 @@ from checks import semcommon
 
 RULE = ("histories: 7 script functions (counter closure writing a global, variadic, recursive, throwing, importing and mutating a "
         "module, try/finally with logging, one that re-enters the host) x every sequence of three calls each made in the script, "
-        "through a pooled Invoker or through an unpooled Invoker from a Go callback during the run; the TLA+ reference treats "
+        "through a pooled Invoker or through an unpooled Invoker from a Go callback during the run, plus histories of three calls made by ONE Invoker (acquired once, child VM re-used; incl. recursion in statement position ending in an uncaught throw, and errors escaping through finally) in 3 orders; the TLA+ reference treats "
         "the three alike (invariant InvSame) and gives result, thrown error, log, captured-variable and global state after every "
         "call; optimizer on/off; non-trivial = histories with at least one call from Go")
 
 def run(ctx):
     semcommon.run_sem(ctx, "UgoSemFam_c14", ["default", "noopt"] if ctx.quick else ["default", "noopt", "default+rt", "noopt+twice"],
-                      nontrivial=lambda r: any(h != "in" for h in r["id"]["how"]), label="c14", sample_every=40)
+                      nontrivial=lambda r: r["id"]["f"] == "invseq" or any(h != "in" for h in r["id"]["how"]), label="c14", sample_every=40)
     ctx.exhaustive = True
     ctx.assumptions += ["the host functions cbcall / cbcall2 (harness/cmd/vh/sem.go hostCall) use NewInvoker/Acquire/Invoke/Release as stdlib callbacks do",
                         "Go-side calls with too few or too many arguments are not generated (lenient by design)"]
